@@ -353,7 +353,7 @@ def extra_scenarios(tier, base):
         "config": "fault_free", "scale": {"instances": 2600, "values": 1, "late": 600}, "graph": [], "step_cap": 60000,
         "target": {"target_classes": [gen.EX + "A"]}, "options": {"instances_report_mode": "mixed"},
         "ns": dict(gen.BASE_NS), "row_seed": 5, "cache_primary": True, "faults": []}))
-    for (ni, nv) in ([(40, 60), (150, 75)] if tier == "quick" else [(40, 60), (150, 75), (120, 300), (300, 420)]):       # 150x75: a little more than 10 000 cached triples
+    for (ni, nv) in ([(40, 60), (150, 75), (130, 400)] if tier == "quick" else [(40, 60), (150, 75), (130, 400), (120, 300), (300, 420)]):       # 150x75: a little more than 10 000 cached triples, 130x400: more than 50 000
         out.append(("scale-%dx%d" % (ni, nv), {
             "config": "fault_free", "scale": {"instances": ni, "values": nv}, "graph": [],
             "target": {"target_classes": [gen.EX + "A"]}, "options": {"instances_report_mode": "mixed", "inverse_paths": True},
